@@ -190,9 +190,9 @@ pub fn engine_float_notes(rt: &tokio::runtime::Runtime, report: &mut Report) {
     report.notes.push(format!("engine semantics [-0.0 < 0.0, -0.0 = 0.0, NaN > 5, 2^53+4 as double <= 2^53+3, 2^53+1 BETWEEN 0.5 AND 2^53, 10 BETWEEN '10' AND 9]: {:?}", r));
 }
 
-/// Ground truth for leg C: the ids of the rows for which DataFusion itself
-/// accepts `WHERE <clause>` on a table with the columns of `metrics`.
-pub fn eval_where(rt: &tokio::runtime::Runtime, clause: &str, rows: &[Row]) -> Result<Vec<usize>, String> {
+/// Runs `sql` with DataFusion on a MemTable named `table_name` that has the
+/// columns of `metrics` (plus a row id) and holds exactly `rows`.
+fn run_sql(rt: &tokio::runtime::Runtime, table_name: &str, sql: &str, rows: &[Row]) -> Result<Vec<RecordBatch>, String> {
     let schema = Arc::new(Schema::new(vec![
         Field::new("rid", DataType::Int64, false),
         Field::new("timestamp", DataType::Timestamp(TimeUnit::Nanosecond, Some("UTC".into())), false),
@@ -221,19 +221,31 @@ pub fn eval_where(rt: &tokio::runtime::Runtime, clause: &str, rows: &[Row]) -> R
         Arc::new(UInt64Array::from(rows.iter().map(|r| match get(r, 4) { V::Int(i) => Some(i as u64), _ => None }).collect::<Vec<_>>())),
     ];
     let batch = RecordBatch::try_new(schema.clone(), cols).map_err(|e| e.to_string())?;
-    let sql = format!("SELECT rid FROM t WHERE {} ORDER BY rid", clause);
     rt.block_on(async {
         let ctx = SessionContext::new();
         let table = MemTable::try_new(schema.clone(), vec![vec![batch]]).map_err(|e| e.to_string())?;
-        ctx.register_table("t", Arc::new(table)).map_err(|e| e.to_string())?;
-        let out = ctx.sql(&sql).await.map_err(|e| e.to_string())?.collect().await.map_err(|e| e.to_string())?;
-        let mut ids = Vec::new();
-        for b in out {
-            let a = b.column(0).as_any().downcast_ref::<Int64Array>().ok_or("rid type")?;
-            for i in 0..a.len() {
-                ids.push(a.value(i) as usize);
-            }
-        }
-        Ok(ids)
+        ctx.register_table(table_name, Arc::new(table)).map_err(|e| e.to_string())?;
+        ctx.sql(sql).await.map_err(|e| e.to_string())?.collect().await.map_err(|e| e.to_string())
     })
+}
+
+/// Ground truth for leg C: the ids of the rows for which DataFusion itself
+/// accepts `WHERE <clause>` on a table with the columns of `metrics`.
+pub fn eval_where(rt: &tokio::runtime::Runtime, clause: &str, rows: &[Row]) -> Result<Vec<usize>, String> {
+    let sql = format!("SELECT rid FROM t WHERE {} ORDER BY rid", clause);
+    let out = run_sql(rt, "t", &sql, rows)?;
+    let mut ids = Vec::new();
+    for b in out {
+        let a = b.column(0).as_any().downcast_ref::<Int64Array>().ok_or("rid type")?;
+        for i in 0..a.len() {
+            ids.push(a.value(i) as usize);
+        }
+    }
+    Ok(ids)
+}
+
+/// Number of rows DataFusion answers for a whole statement over `metrics`
+/// when the table holds exactly the chunk's rows.
+pub fn eval_stmt(rt: &tokio::runtime::Runtime, sql: &str, rows: &[Row]) -> Result<usize, String> {
+    Ok(run_sql(rt, "metrics", sql, rows)?.iter().map(|b| b.num_rows()).sum())
 }
